@@ -266,6 +266,55 @@ func (p *pkg) fieldRegexIn(fn, field string) string {
 	return res
 }
 
+// callsWithConds: every call `<x>.<sel>(...)` (or `<sel>(...)`) in func/method fn of recv, in source order: the
+// argument texts, then after "|" the if-conditions that enclose the call, outermost first ("!(c)" for an else branch)
+func (p *pkg) callsWithConds(fn, recv, sel string) []string {
+	txt := func(e ast.Node) string {
+		var sb strings.Builder
+		printer.Fprint(&sb, token.NewFileSet(), e)
+		return sb.String()
+	}
+	var out []string
+	var walk func(n ast.Node, conds []string)
+	walk = func(n ast.Node, conds []string) {
+		ast.Inspect(n, func(m ast.Node) bool {
+			if m == n || m == nil {
+				return true
+			}
+			if is, ok := m.(*ast.IfStmt); ok {
+				if is.Init != nil {
+					walk(is.Init, conds)
+				}
+				walk(is.Cond, conds)
+				walk(is.Body, append(append([]string(nil), conds...), txt(is.Cond)))
+				if is.Else != nil {
+					walk(is.Else, append(append([]string(nil), conds...), "!("+txt(is.Cond)+")"))
+				}
+				return false
+			}
+			if call, ok := m.(*ast.CallExpr); ok {
+				name := ""
+				switch f := call.Fun.(type) {
+				case *ast.SelectorExpr:
+					name = f.Sel.Name
+				case *ast.Ident:
+					name = f.Name
+				}
+				if name == sel {
+					var as []string
+					for _, a := range call.Args {
+						as = append(as, txt(a))
+					}
+					out = append(out, strings.Join(as, ", ")+" | "+strings.Join(conds, " && "))
+				}
+			}
+			return true
+		})
+	}
+	walk(p.funcDeclRecv(fn, recv).Body, nil)
+	return out
+}
+
 // fieldExprIn: the source text of the value given to `field:` in a composite literal inside package-level func fn
 func (p *pkg) fieldExprIn(fn, field string) string {
 	res := ""
@@ -949,6 +998,20 @@ func main() {
 		facts["uploadExclude"] = map[string]interface{}{"appended": appended, "conds": conds, "scanArgs": scanArgs}
 		return "def uploadExcludeAppended : List Bytes := " + bytesList(appended) + "\ndef uploadExcludeConds : List Bytes := " + bytesList(conds) +
 			"\ndef uploadScanArgs : List Bytes := " + bytesList(scanArgs)
+	})
+	// ---- commands/command_unlock.go (C16): the guard of `unlock --id` finds the lock's path in the local cache
+	// and, failing that, asks the server
+	emit("unlockByIdLookups", func() string {
+		l := cmds.callsWithConds("unlockAbortIfFileModifiedById", "", "SearchLocks")
+		facts["unlockByIdLookups"] = l
+		return "def unlockByIdLookups : List Bytes := " + bytesList(l)
+	})
+	// ---- lfsapi/auth.go (C18, C10): after an auth error the Authorization header is deleted from the request only
+	// when git-lfs itself had filled it from the credential helper — never a header the offered action supplied
+	emit("authHeaderDeletions", func() string {
+		l := safeLoad(filepath.Join(repo, "lfsapi")).callsWithConds("doWithAuth", "Client", "Del")
+		facts["authHeaderDeletions"] = l
+		return "def authHeaderDeletions : List Bytes := " + bytesList(l)
 	})
 	// ---- commands/command_track.go (C19)
 	emit("trackEscapeStrings", func() string { return "def trackEscapeStrings : List Bytes := " + bytesList(cmds.strs("trackEscapeStrings")) })
